@@ -180,6 +180,53 @@ func runC05(c *fw.Case) (o fw.Outcome) {
 		if o.Failed() {
 			return
 		}
+		if c.Idx%4 == 3 {
+			// the SAME context is challenged again (re-authentication of a registered UE, a retransmitted or re-issued
+			// challenge): RAND and SQN each kept or renewed, now and then for a re-provisioned K. What the second run leaves in
+			// the context is a function of the second run's arguments.
+			rnd2, sqn2, k2 := rnd, sqn, k
+			mode := r.Intn(4)
+			if mode&1 != 0 {
+				rnd2 = cornerBytes(r, 16)
+			}
+			if mode&2 != 0 || mode == 0 && r.Intn(2) == 0 {
+				sqn2 = cornerBytes(r, 6)
+			}
+			if r.Intn(4) == 0 {
+				k2 = cornerBytes(r, 16)
+			}
+			opc2 := sec.ComputeOPc(k2, op)
+			autn2 := sec.GenerateAUTN(k2, opc2, rnd2, sqn2, amf)
+			res2, ck2, ik2, _, _ := sec.F2345(k2, opc2, rnd2)
+			wantRes2 := sec.RESStar(ck2, ik2, snn, rnd2, res2)
+			kamf2 := sec.KAMF(sec.KSEAF(sec.KAUSF(ck2, ik2, snn, autn2[:6]), snn), supi, []byte{0, 0})
+			var a2 [16]byte
+			copy(a2[:], autn2)
+			subs2 := tglib.GetAuthSubscription(hexs(k2), hexs(opc2), "")
+			got2 := ue.DeriveRESstarAndSetKey(subs2, a2, append([]byte(nil), rnd2...), snName, mnc, mcc)
+			o.Count("second_derivations_on_the_same_context", 1)
+			what := fmt.Sprintf("second challenge on the same context (RAND %s, SQN %s, K %s)", sameOr(rnd, rnd2), sameOr(sqn, sqn2), sameOr(k, k2))
+			switch {
+			case !bytes.Equal(got2, wantRes2):
+				o.Fail("res-star:second-challenge", "%s: RES* %x, network derives %x", what, got2, wantRes2)
+			case !bytes.Equal(ue.Kamf, kamf2):
+				o.Fail("kamf:second-challenge", "%s: K_AMF %x, network derives %x", what, ue.Kamf, kamf2)
+			case !bytes.Equal(ue.KnasInt[:], sec.NASAlgKey(kamf2, 0x02, iAlg)):
+				o.Fail("knasint:second-challenge", "%s: K_NASint %x, network derives %x", what, ue.KnasInt, sec.NASAlgKey(kamf2, 0x02, iAlg))
+			case !bytes.Equal(ue.KnasEnc[:], sec.NASAlgKey(kamf2, 0x01, cAlg)):
+				o.Fail("knasenc:second-challenge", "%s: K_NASenc %x, network derives %x", what, ue.KnasEnc, sec.NASAlgKey(kamf2, 0x01, cAlg))
+			}
+			if o.Failed() {
+				return
+			}
+		}
 	}
 	return
+}
+
+func sameOr(a, b []byte) string {
+	if bytes.Equal(a, b) {
+		return "the same"
+	}
+	return "another"
 }
